@@ -9,11 +9,13 @@
 (* (mirrored state / unknown / error, forRelease flag), client cancel /    *)
 (* release / force-release, the ONE cancel/release request and its result  *)
 (* (ok / refused / lost), going to the background path, giving up, the     *)
-(* local removal after a release, S kill and restart.                      *)
+(* local removal after a release, S kill and restart; the rewrite that     *)
+(* first stores E's id (derived from the sf_write events of the record)    *)
+(* and the completed stdin transfer, in that order.                        *)
 (* Not logged, composed silently between two events: the link going down   *)
 (* and up (the relay's cut/heal is only the cause; what the protocol sees  *)
 (* is the mesh route), E's own progress, connect attempts, the rewrite of  *)
-(* RemoteUnitID, the stdin transfer, the stdout monitor.  Output sizes are *)
+(* the stdout monitor.  Output sizes are *)
 (* not bound here (MaxOut = 1); the prefix property is decided on the real *)
 (* files by the driver.                                                    *)
 (* Acceptance: the high-water mark of the cursor reaches the end of the    *)
@@ -40,7 +42,7 @@ TInit == Init /\ l = 1
 
 TSilent == /\ l <= Len(RTrace)
            /\ \/ LinkDown \/ LinkUp \/ EStart \/ EWrite \/ EFinish \/ ECancel \/ EGone
-              \/ (MConnect /\ (link \/ bg)) \/ StoreId \/ ShipStdin \/ SMConnect
+              \/ (MConnect /\ (link \/ bg)) \/ SMConnect
               \/ OMCheck \/ OMConnect \/ OMCopy \/ ForceReleaseLocal
            /\ Silent
 
@@ -57,6 +59,9 @@ TReset == /\ Has("reset")
 
 TStart     == Has("rw_start") /\ (E.start \/ started) /\ UNCHANGED vars /\ Consume
 TSubmitted == Has("rw_submitted") /\ link /\ SubmitSend /\ Consume
+\* the status rewrite that first carries the id E answered with (an sf_write of the unit's record), and the completed stdin transfer
+TIdStored  == Has("id_stored") /\ StoreId /\ Consume
+TShipped   == Has("rw_stdin_shipped") /\ link /\ est # "gone" /\ ShipStdin /\ Consume
 TStarted   == Has("rw_started") /\ StoreStarted /\ Consume
 TBackground == Has("rw_background") /\ ~link /\ ~bg /\ mop # "frelease" /\ MConnect /\ Consume
 TGaveUp    == Has("rw_gave_up") /\ gaveUp /\ UNCHANGED vars /\ Consume
@@ -80,7 +85,7 @@ TLocalRelease == Has("rw_local_release") /\ ~known /\ UNCHANGED vars /\ Consume
 TKill    == Has("env_kill") /\ CrashS /\ Consume
 TRestart == Has("env_restart") /\ RestartS /\ Consume
 
-TNext == TReset \/ TSilent \/ TStart \/ TSubmitted \/ TStarted \/ TBackground \/ TGaveUp \/ TPoll \/ TOp \/ TRequest \/ TLocalRelease \/ TKill \/ TRestart
+TNext == TReset \/ TSilent \/ TStart \/ TSubmitted \/ TIdStored \/ TShipped \/ TStarted \/ TBackground \/ TGaveUp \/ TPoll \/ TOp \/ TRequest \/ TLocalRelease \/ TKill \/ TRestart
 TSpec == TInit /\ [][TNext]_<<vars, l>>
 
 RTraceAccepted == TLCGet(42) = Len(RTrace) + 1
